@@ -24,7 +24,7 @@ def gen_case(rng, idx, tier):
         cur = gen.curve(rng, pmax=3, nintmax=2, rational=True, wratio=9)
     else:
         deep = tier == "thorough" and rng.random() < 0.25
-        cur = gen.curve(rng, pmax=6 if deep else 4, nintmax=6 if deep else 4, rational=False)
+        cur = gen.curve(rng, pmax=6 if deep else 4, nintmax=6 if deep else 4, rational=False, magnitudes=True)
     if rng.random() < 0.15:
         U = gen.integer_kv(rng, pmax=3, nintmax=3)
         p, n = ref.wellformed(U)
